@@ -106,7 +106,7 @@ PROPS = {
     },
     "C20": {
         "runs": [{"probe": "lit_probe", "baseline": "decimal",
-                  "classes": ["decimal", "leading_zeros", "negative", "hex_lower", "hex_upper", "octal_lower", "octal_upper", "binary_lower", "binary_upper", "bigint", "const_ctor", "derive_small_subgroup"]},
+                  "classes": ["decimal", "leading_zeros", "negative", "hex_lower", "hex_upper", "octal_lower", "octal_upper", "binary_lower", "binary_upper", "bigint", "const_ctor", "derive_small_subgroup", "reject_bigint_negative", "reject_bigint_too_wide", "reject_montfp_too_wide", "reject_montfp_too_wide_negative"]},
                  {"bin": "mon_const"}, {"bin": "mon_ff"}],
         "assumptions": BASE_ASSUME + [
             "the const constructors Fp::new / Fp::from_sign_and_limbs (what MontFp! expands to) are const fn and therefore run the same code at run time as in constant evaluation; mon_ff drives them at run time over all 204 prime-field configurations with crafted and edge-biased integers (C20 run-time part)",
